@@ -11,7 +11,10 @@ from array import array
 from pmon import monitors
 
 ROOT = os.path.dirname(os.path.dirname(os.path.abspath(__file__)))
-OUT = os.path.join(ROOT, 'out')
+# PMON_REPO / PMON_OUT let the mutant self-tests run the same checks against a scratch
+# worktree in parallel; the registered commands never set them (tree under test = /repo)
+REPO = os.environ.get('PMON_REPO', '/repo').rstrip('/')
+OUT = os.environ.get('PMON_OUT') or os.path.join(ROOT, 'out')
 EVIDENCE = os.path.join(ROOT, 'evidence')
 MAX_REPLAYS = 20
 MAX_SAMPLES = 6
@@ -161,7 +164,7 @@ class Ctx:
             tb = traceback.extract_tb(e.__traceback__)
             where = ''
             for fr in reversed(tb):
-                if fr.filename.startswith('/repo/'):
+                if fr.filename.startswith(REPO + '/'):
                     where = f'{os.path.basename(fr.filename)}:{fr.name}'
                     break
             self.fail((clause or _name(fn)) + ':unexpected-exception',
